@@ -130,4 +130,19 @@ def expectedFanouts : List (String × List String × Nat × List (String × Bool
 
 theorem fanouts_conform : (fanouts == expectedFanouts) = true := by decide +kernel
 
+/-! ### every pool has at least one worker
+
+The every-schedule theorems assume at least one worker per pool, and the assumption is needed
+(`Lemmas/SchedProofs.zero_workers_lose_record`: the driver returns nil with a record still in a channel;
+`zero_workers_deadlock`). `Gen.poolSizes`: every wait group of pkg/ is sized by `runtime.NumCPU()`, by the constant 1, or
+by a `threads` parameter that the function first makes usable (`if threads < 1 { threads = ... }`, fix 250355f - before
+it `--threads 0` printed an empty result with exit status 0 for `variants` and hung the three `sam` commands). -/
+def poolSized (e : String × List String × Bool) : Bool :=
+  e.2.1.all fun a => a == "runtime.NumCPU()" || a == "1" || (a == "threads" && e.2.2)
+
+theorem pools_have_workers : poolSizes.all poolSized = true := by decide +kernel
+
+/-- not vacuous: a pool sized by an unchecked parameter is refused -/
+example : poolSized ("sam.ToMultiAlign", ["threads"], false) = false := by decide +kernel
+
 end Gofasta.Props.Pipes
